@@ -7,6 +7,10 @@ import UVerifProofs.Lemmas.CfloatRound
 import UVerifProofs.Lemmas.CfloatMul
 import UVerifProofs.Lemmas.CfloatOverflow
 import UVerifProofs.Lemmas.CfloatAdd
+import UVerifProofs.Lemmas.CfloatSubCore
+import UVerifProofs.Lemmas.CfloatArith
+import UVerifProofs.Lemmas.CfloatDivCore
+import UVerifProofs.Lemmas.CfloatUnderflow
 open UVerif UVerif.Cfloat
 
 /-- an operand the operator prologues decide: NaN, infinity or a (signed) zero -/
@@ -255,21 +259,8 @@ theorem C02_special_div (c : Cfg) (hv : c.valid = true) (a b : Nat) (ha : a < 2 
           rw [this] at hnr; cases hnr
 
 /-- subtraction is addition of the negated operand, also in the special-value table -/
-theorem C02_expect_sub_eq_add_neg (va vb : Val) : expectOp "sub" va vb = expectOp "add" va (negVal vb) := by
-  cases va with
-  | nan s => cases vb <;> simp [expectOp, negVal]
-  | inf s =>
-    cases vb with
-    | nan t => simp [expectOp, negVal]
-    | inf t => cases s <;> cases t <;> simp [expectOp, negVal]
-    | fin t y => simp [expectOp, negVal]
-  | fin s x =>
-    cases vb with
-    | nan t => simp [expectOp, negVal]
-    | inf t => simp [expectOp, negVal]
-    | fin t y =>
-      cases s <;> cases t <;> simp only [expectOp, negVal, Bool.not_true, Bool.not_false, if_true, if_false, Bool.false_eq_true] <;>
-        simp only [sub_eq_add_neg, neg_neg]
+theorem C02_expect_sub_eq_add_neg (va vb : Val) : expectOp "sub" va vb = expectOp "add" va (negVal vb) :=
+  expect_sub_eq_add_neg va vb
 
 /-- special-value table of `-` (through `+` of the negated operand; a NaN subtrahend is passed on unchanged) -/
 theorem C02_special_sub (c : Cfg) (hv : c.valid = true) (a b : Nat) (ha : a < 2 ^ c.nbits) (hb : b < 2 ^ c.nbits)
@@ -619,29 +610,19 @@ theorem C02_add_sticky_sound (N d t R : Nat) (ht : 2 ≤ t) (hR1 : 1 ≤ R)
 /-- side condition of `C02_add_same_sign_partial`: the sum's exponent lies in the normal range, at least two below
     the all-ones exponent (the sum significant is formed with the operand of the larger exponent unshifted, as
     blocktriple::add does) -/
-def C02_add_inRange (c : Cfg) (a b : Nat) : Bool :=
-  let (hiOp, loOp) := if c.expOf b ≤ c.expOf a then (a, b) else (b, a)
-  let S := (2 ^ c.fbits + c.fracOf hiOp) * 8 + stickyShr ((2 ^ c.fbits + c.fracOf loOp) * 8) (c.expOf hiOp - c.expOf loOp)
-  let E : Int := ((c.expOf hiOp : Int) - c.bias) + sigScale (c.fbits + 3) S
-  decide (c.minExpNormal ≤ E) && decide (E + c.bias + 1 < c.emax)
+def C02_add_inRange (c : Cfg) (a b : Nat) : Bool := addInRange c a b
 
 /-- **C02 for addition, operands of the same sign** (partial): every configuration with fbits ≤ 58 (the sum triple
     fits 64 bits), all finite operands with non-zero exponent field and equal signs, in EITHER order and with ANY
     exponent difference (the alignment shift may discard arbitrarily many bits into the sticky bit), result in the
-    normal range below the top binades: operator+ returns the IEEE rounding of the exact sum.
-    (Operands of opposite signs — cancellation — are open, see `C02_add_full`.) -/
+    normal range below the top binades: operator+ returns the IEEE rounding of the exact sum. -/
 theorem C02_add_same_sign_partial (c : Cfg) (hv : c.valid = true) (a b : Nat)
     (hnarrow : c.fbits + 6 < 65)
     (hna : normalOperand c a = true) (hnb : normalOperand c b = true)
     (hsign : c.signOf a = c.signOf b)
     (hr : C02_add_inRange c a b = true) :
-    satisfies c (expectOp "add" (cfVal c a) (cfVal c b)) (add c a b) = true := by
-  unfold C02_add_inRange at hr
-  by_cases hge : c.expOf b ≤ c.expOf a
-  · simp only [hge, if_true, Bool.and_eq_true, decide_eq_true_eq] at hr
-    exact add_same_sign_ge c hv a b hnarrow hna hnb hsign hge hr.1 hr.2
-  · simp only [hge, if_false, Bool.and_eq_true, decide_eq_true_eq] at hr
-    exact add_same_sign_lt c hv a b hnarrow hna hnb hsign (by omega) hr.1 hr.2
+    satisfies c (expectOp "add" (cfVal c a) (cfVal c b)) (add c a b) = true :=
+  add_same_sign_partial c hv a b hnarrow hna hnb hsign hr
 
 /-- non-vacuity: 5.25 + 0.4375 in cfloat<8,3,sub> (exponent difference 4: bits of the smaller operand go into the
     sticky bit; 22.75 ulp rounds to 23 ulp = 5.75 = 0x57) -/
@@ -650,3 +631,171 @@ example : let c : Cfg := { nbits := 8, es := 3, sub := true }
     C02_add_inRange c 0x55 0x1c = true ∧ add c 0x55 0x1c = 0x57 ∧
     C02_add_inRange c 0x1c 0x55 = true ∧ add c 0x1c 0x55 = 0x57 := by
   decide +kernel
+
+
+/-! ### addition of operands of opposite sign, subtraction -/
+
+/-- side condition for operands of opposite sign: either the aligned significants cancel exactly, or the exponent of
+    the renormalised difference lies in the normal range, at least two below the all-ones exponent -/
+def C02_add_opp_inRange (c : Cfg) (a b : Nat) : Bool := addOppInRange c a b
+
+/-- **C02 for addition, operands of opposite sign** (cancellation): fbits ≤ 58, finite operands with non-zero
+    exponent field, either order, any exponent difference, any amount of cancellation (the renormalising left
+    shift), result zero or in the normal range below the top binades: exact cancellation gives a zero, otherwise the
+    result is the IEEE rounding of the exact difference and carries the sign of the larger operand. -/
+theorem C02_add_opp_sign_partial (c : Cfg) (hv : c.valid = true) (a b : Nat)
+    (hnarrow : c.fbits + 6 < 65)
+    (hna : normalOperand c a = true) (hnb : normalOperand c b = true)
+    (hsign : c.signOf b = !c.signOf a)
+    (hr : C02_add_opp_inRange c a b = true) :
+    satisfies c (expectOp "add" (cfVal c a) (cfVal c b)) (add c a b) = true :=
+  add_opp_sign_partial c hv a b hnarrow hna hnb hsign hr
+
+/-- side condition of `C02_add_partial` for any combination of signs -/
+def C02_add_inRange_all (c : Cfg) (a b : Nat) : Bool := addInRangeAll c a b
+
+/-- **C02 for addition** (partial, all sign combinations): every configuration with fbits ≤ 58 (≤ 64-bit path), all
+    finite operands with non-zero exponent fields (normals, supernormals), result zero (exact cancellation) or in
+    the normal range at least two below the all-ones exponent: operator+ satisfies the property's expectation.
+    Open: subnormal operands / results, the two top binades (overflow cusp), the > 64-bit path (false there, D5). -/
+theorem C02_add_partial (c : Cfg) (hv : c.valid = true) (a b : Nat)
+    (hnarrow : c.fbits + 6 < 65)
+    (hna : normalOperand c a = true) (hnb : normalOperand c b = true)
+    (hr : C02_add_inRange_all c a b = true) :
+    satisfies c (expectOp "add" (cfVal c a) (cfVal c b)) (add c a b) = true :=
+  add_partial c hv a b hnarrow hna hnb hr
+
+/-- **C02 for subtraction** (partial): a − b is a + (−b) in the code and in the property's table
+    (`C02_expect_sub_eq_add_neg`), so the addition theorem carries over with the side condition evaluated on the
+    negated subtrahend. -/
+theorem C02_sub_partial (c : Cfg) (hv : c.valid = true) (a b : Nat)
+    (hnarrow : c.fbits + 6 < 65)
+    (hna : normalOperand c a = true) (hnb : normalOperand c b = true)
+    (hr : C02_add_inRange_all c a (negate c b) = true) :
+    satisfies c (expectOp "sub" (cfVal c a) (cfVal c b)) (sub c a b) = true :=
+  sub_partial c hv a b hnarrow hna hnb hr
+
+/-- non-vacuity: 5.25 − 5.0 in cfloat<8,3,sub> (three leading bits cancel, exact), 5.25 + (−0.4375) (sticky bits, one
+    rounding), and x − x = +0 -/
+example : let c : Cfg := { nbits := 8, es := 3, sub := true }
+    normalOperand c 0x55 = true ∧ normalOperand c 0x54 = true ∧
+    C02_add_inRange_all c 0x55 (negate c 0x54) = true ∧ sub c 0x55 0x54 = 0x10 ∧
+    C02_add_inRange_all c 0x55 0x9c = true ∧ add c 0x55 0x9c = 0x53 ∧
+    C02_add_inRange_all c 0x55 (negate c 0x55) = true ∧ sub c 0x55 0x55 = 0x00 := by
+  decide +kernel
+
+
+/-! ### division -/
+
+/-- the quotient bits computed by `blocksignificant::div` for normalised operands: upper 2fb+5 bits exact, low fb
+    bits arbitrary (truncated dividers), zero when the division is exact -/
+theorem C02_div_quotient_spec (fb A B : Nat) (hfb : 1 ≤ fb) (hA1 : 2 ^ fb ≤ A) (hA2 : A < 2 ^ (fb + 1)) (hB1 : 2 ^ fb ≤ B) (hB2 : B < 2 ^ (fb + 1)) :
+    (A * 2 ^ (2 * fb + 4) / B) * 2 ^ fb ≤ divLoop (3 * fb + 4) (2 * ((3 * fb + 4) / 2) + 1) 0 (A * 2 ^ (2 * fb + 4)) (B * 2 ^ (2 * fb + 4)) 0 ∧
+    divLoop (3 * fb + 4) (2 * ((3 * fb + 4) / 2) + 1) 0 (A * 2 ^ (2 * fb + 4)) (B * 2 ^ (2 * fb + 4)) 0
+      < (A * 2 ^ (2 * fb + 4) / B) * 2 ^ fb + 2 ^ fb ∧
+    ((A * 2 ^ (2 * fb + 4)) % B = 0 →
+      divLoop (3 * fb + 4) (2 * ((3 * fb + 4) / 2) + 1) 0 (A * 2 ^ (2 * fb + 4)) (B * 2 ^ (2 * fb + 4)) 0
+        = (A * 2 ^ (2 * fb + 4) / B) * 2 ^ fb) :=
+  divq_spec fb A B hfb hA1 hA2 hB1 hB2
+
+/-- **no tie without equality** (`div_truncation_sound` of DESIGN.md for cfloat): the computed quotient and the exact
+    quotient A·2^(3fb+4)/B lie on the same side of every multiple of 2^(2fb+2), and meet one only together -/
+theorem C02_div_no_tie_without_equality (fb A B q e : Nat) (hB1 : 2 ^ fb ≤ B) (hB2 : B < 2 ^ (fb + 1))
+    (h1 : (A * 2 ^ (2 * fb + 4) / B) * 2 ^ fb ≤ q) (h2 : q < (A * 2 ^ (2 * fb + 4) / B) * 2 ^ fb + 2 ^ fb)
+    (h3 : (A * 2 ^ (2 * fb + 4)) % B = 0 → q = (A * 2 ^ (2 * fb + 4) / B) * 2 ^ fb) :
+    (q < e * 2 ^ (2 * fb + 2) ↔ A * 2 ^ (3 * fb + 4) < e * 2 ^ (2 * fb + 2) * B) ∧
+    (e * 2 ^ (2 * fb + 2) < q ↔ e * 2 ^ (2 * fb + 2) * B < A * 2 ^ (3 * fb + 4)) :=
+  div_side fb A B q e hB1 hB2 h1 h2 h3
+
+/-- side condition of `C02_div_partial`: the quotient's exponent (the difference of the operand exponents, minus one
+    when the significand quotient is below 1) stays in the normal range, at least two below the all-ones exponent -/
+def C02_div_inRange (c : Cfg) (a b : Nat) : Bool :=
+  let sc : Int := ((c.expOf a : Int) - c.bias) - ((c.expOf b : Int) - c.bias)
+  decide (c.minExpNormal ≤ sc - 1) && decide (sc + c.bias + 1 < c.emax)
+
+/-- **C02 for division** (partial): every configuration with fbits ≤ 19 (the quotient triple fits 64 bits), all
+    finite operands with non-zero exponent fields, quotient exponent in the normal range below the top binades:
+    operator/ returns the IEEE rounding of the exact quotient — one rounding, although the restoring loop's low
+    quotient bits are computed with truncated dividers. -/
+theorem C02_div_partial (c : Cfg) (hv : c.valid = true) (a b : Nat)
+    (hnarrow : 3 * c.fbits + 6 < 65)
+    (hna : normalOperand c a = true) (hnb : normalOperand c b = true)
+    (hr : C02_div_inRange c a b = true) :
+    satisfies c (expectOp "div" (cfVal c a) (cfVal c b)) (div c a b) = true := by
+  unfold C02_div_inRange at hr
+  simp only [Bool.and_eq_true, decide_eq_true_eq] at hr
+  refine div_normal_round c hv a b hnarrow hna hnb ?_
+  intro sh hsh
+  exact ⟨hr.1, by omega⟩
+
+/-- non-vacuity: 1.3125 / 1.75 = 0.75 exactly, and 1.0 / 1.1875 (inexact, quotient below 1) in cfloat<8,3,sub> -/
+example : let c : Cfg := { nbits := 8, es := 3, sub := true }
+    3 * c.fbits + 6 < 65 ∧ normalOperand c 0x35 = true ∧ normalOperand c 0x3c = true ∧ C02_div_inRange c 0x35 0x3c = true ∧
+    div c 0x35 0x3c = 0x28 ∧ C02_div_inRange c 0x30 0x33 = true ∧ div c 0x30 0x33 = 0x2b := by
+  decide +kernel
+
+
+/-! ### underflow -/
+
+private theorem C02_signed_value_ne_zero (sign : Bool) (sig radix : Nat) (scale : Int) (hsig : 2 ^ radix ≤ sig) :
+    ¬ ((if sign = true then (-1 : ℚ) else 1) * ((sig : ℚ) * pow2 (scale - (radix : Int))) = 0) := by
+  have hs : (0 : ℚ) < (sig : ℚ) := by
+    have : 0 < sig := lt_of_lt_of_le (two_pow_pos _) hsig
+    exact_mod_cast this
+  have hp := pow2_pos (scale - (radix : Int))
+  have h0 : (if sign = true then (-1 : ℚ) else 1) ≠ 0 := by cases sign <;> simp
+  exact mul_ne_zero h0 (mul_ne_zero (ne_of_gt hs) (ne_of_gt hp))
+
+/-- **flush to zero**: without subnormals every result whose exponent is below MIN_EXP_NORMAL becomes a zero with
+    the sign of the exact result (every width, both convert paths) -/
+theorem C02_convert_flush (c : Cfg) (hv : c.valid = true) (hsub : c.sub = false)
+    (o : Op) (sign : Bool) (scale : Int) (sig : Nat)
+    (hsig : 2 ^ (o.radix c.fbits) ≤ sig)
+    (hhi : scale + sigScale (o.radix c.fbits) sig < c.minExpNormal) :
+    convertFinite c o sign scale sig < 2 ^ c.nbits ∧
+    IeeeNearest c ((if sign then -1 else 1) * ((sig : ℚ) * pow2 (scale - (o.radix c.fbits : Int))))
+      (convertFinite c o sign scale sig) := by
+  obtain ⟨h1, h2⟩ := convert_flush c hv hsub o sign scale sig hsig hhi
+  refine ⟨h1, ?_⟩
+  unfold IeeeNearest
+  rw [if_neg (C02_signed_value_ne_zero sign sig _ scale hsig)]; exact h2
+
+/-- **underflow with subnormals** incl. the half-minpos special case of convert: exponent below MIN_EXP_SUBNORMAL ⇒
+    signed zero, or the smallest subnormal when the value exceeds half of it (a tie goes to zero); 2 ≤ es ≤ 20,
+    every width, both convert paths -/
+theorem C02_convert_underflow (c : Cfg) (hv : c.valid = true) (hsub : c.sub = true) (hes2 : 2 ≤ c.es) (hes20 : c.es ≤ 20)
+    (o : Op) (sign : Bool) (scale : Int) (sig : Nat)
+    (hsig : 2 ^ (o.radix c.fbits) ≤ sig)
+    (hhi : scale + sigScale (o.radix c.fbits) sig < c.minExpSubnormal) :
+    convertFinite c o sign scale sig < 2 ^ c.nbits ∧
+    IeeeNearest c ((if sign then -1 else 1) * ((sig : ℚ) * pow2 (scale - (o.radix c.fbits : Int))))
+      (convertFinite c o sign scale sig) := by
+  have hrad : c.fbits ≤ o.radix c.fbits := by cases o <;> simp [Op.radix] <;> omega
+  obtain ⟨h1, h2⟩ := convert_underflow c hv hsub hes2 hes20 o sign scale sig hsig hrad hhi
+  refine ⟨h1, ?_⟩
+  unfold IeeeNearest
+  rw [if_neg (C02_signed_value_ne_zero sign sig _ scale hsig)]; exact h2
+
+/-- side condition: the product's exponent is below the smallest representable binade -/
+def C02_mul_underflows (c : Cfg) (a b : Nat) : Bool :=
+  let sc : Int := ((c.expOf a : Int) - c.bias) + ((c.expOf b : Int) - c.bias)
+  let p := (2 ^ c.fbits + c.fracOf a) * (2 ^ c.fbits + c.fracOf b)
+  decide (sc + sigScale (2 * c.fbits) p < (if c.sub then c.minExpSubnormal else c.minExpNormal))
+
+/-- **C02 for multiplication, underflow**: tiny products become a signed zero (or the smallest subnormal above the
+    half-minpos threshold); every width incl. the > 64-bit path -/
+theorem C02_mul_underflow_partial (c : Cfg) (hv : c.valid = true) (hes2 : 2 ≤ c.es) (hes20 : c.es ≤ 20)
+    (a b : Nat) (hna : normalOperand c a = true) (hnb : normalOperand c b = true)
+    (hr : C02_mul_underflows c a b = true) :
+    satisfies c (expectOp "mul" (cfVal c a) (cfVal c b)) (mul c a b) = true := by
+  unfold C02_mul_underflows at hr
+  simp only [decide_eq_true_eq] at hr
+  obtain ⟨hmul, hexp, hp⟩ := mul_normal_operands c hv a b hna hnb
+  rw [hexp, hmul]
+  unfold satisfies
+  simp only [Bool.and_eq_true, decide_eq_true_eq]
+  cases hs : c.sub
+  · rw [hs] at hr; simp only [Bool.false_eq_true, if_false] at hr
+    exact convert_flush c hv hs .mul _ _ _ hp (by simp only [Op.radix]; exact hr)
+  · rw [hs] at hr; simp only [if_true] at hr
+    exact convert_underflow c hv hs hes2 hes20 .mul _ _ _ hp (by simp only [Op.radix]; omega) (by simp only [Op.radix]; exact hr)
